@@ -968,6 +968,15 @@ def _minmax(eng, args, kwargs, is_min):
     items = list(args) if len(args) > 1 else iterate_concrete(eng, args[0])
     if not items:
         raise ProgExc(ValueError, "min/max of empty sequence")
+    keyf = kwargs.get("key")
+    if keyf is not None:
+        # first extremal element wins (CPython); decided by forking on the comparisons
+        cur, curk = items[0], eng.call(keyf, [items[0]], {})
+        for x in items[1:]:
+            xk = eng.call(keyf, [x], {})
+            if eng.branch(eng.compare(ast.Lt() if is_min else ast.Gt(), xk, curk)):
+                cur, curk = x, xk
+        return cur
     cur = items[0]
     for x in items[1:]:
         c = eng.compare(ast.Lt() if is_min else ast.Gt(), x, cur)
